@@ -170,6 +170,20 @@ func cmdCheck(prop, tier string, jobs int) int {
 		}
 	}
 	s.solver.Solve(smtObs, tier == "thorough", timeoutFor(tier), jobs)
+	// a solver process that died (result "error") says nothing about the obligation: re-run those with little parallelism
+	for round := 0; round < 2; round++ {
+		var again []*Obligation
+		for _, ob := range smtObs {
+			if ob.Result == "error" && ob.vc != nil {
+				ob.Result, ob.Raw, ob.Backend = "", "", ""
+				again = append(again, ob)
+			}
+		}
+		if len(again) == 0 {
+			break
+		}
+		s.solver.Solve(again, tier == "thorough", timeoutFor(tier), 2)
+	}
 	s.solver.SolveCanaries(pr.canaries, jobs)
 
 	knownBy := map[string]KnownFinding{}
@@ -410,6 +424,13 @@ func cmdLock(jobs int) int {
 				names = append(names, ob.Name)
 			} else if !isKnown[p+"|"+ob.Name] && !matchKnown(ob.Name) {
 				fmt.Printf("not locked (not discharged): %s %s %s\n", p, ob.Name, ob.Result)
+				if ob.Result == "error" {
+					r := ob.Raw
+					if len(r) > 400 {
+						r = r[:400]
+					}
+					fmt.Printf("  solver output: %q\n", r)
+				}
 				rc = 1
 			}
 		}
